@@ -3,5 +3,5 @@
 set -e
 cd "$(dirname "$0")"
 cp ../coq/model.ml ../coq/model.mli .
-ocamlfind ocamlopt -O2 -w -a -package zarith -linkpkg model.mli model.ml main.ml -o driver 2>&1 || \
-ocamlfind ocamlopt -w -a -package zarith -linkpkg model.mli model.ml main.ml -o driver
+ocamlfind ocamlopt -O2 -w -a -package zarith,unix -linkpkg model.mli model.ml main.ml -o driver 2>&1 || \
+ocamlfind ocamlopt -w -a -package zarith,unix -linkpkg model.mli model.ml main.ml -o driver
